@@ -18,7 +18,7 @@ import (
 
 type c17Entry struct {
 	Kind  string   `json:"kind"`  // none | match | mismatch
-	Label string   `json:"label"` // none | match | mismatch
+	Label string   `json:"label"` // none | match | mismatch | notexists (only a negative requirement: key "skip" DoesNotExist)
 	Subs  []string `json:"subs"`  // condA | condB | fields | cel | celNonBool
 }
 
@@ -30,6 +30,7 @@ type c17Obj struct {
 	Fields string `json:"fields"` // equal | different | missingB
 	X      int64  `json:"x"`      // spec.x for the CEL rule self.spec.x > 0
 	Gen    string `json:"gen"`    // int (metadata.generation = 2) | absent | string ("2"): an unreadable generation counts as 0
+	Lab    string `json:"lab"`    // app (labels {app: x}) | none (no labels at all)
 }
 
 func c17Concrete(es []c17Entry) []corev1alpha1.ObjectSetProbe {
@@ -47,6 +48,9 @@ func c17Concrete(es []c17Entry) []corev1alpha1.ObjectSetProbe {
 			p.Selector.Selector = &metav1.LabelSelector{MatchLabels: map[string]string{"app": "x"}}
 		case "mismatch":
 			p.Selector.Selector = &metav1.LabelSelector{MatchLabels: map[string]string{"app": "y"}}
+		case "notexists":
+			p.Selector.Selector = &metav1.LabelSelector{MatchExpressions: []metav1.LabelSelectorRequirement{
+				{Key: "skip", Operator: metav1.LabelSelectorOpDoesNotExist}}}
 		}
 		for _, s := range e.Subs {
 			switch s {
@@ -71,7 +75,9 @@ func c17Concrete(es []c17Entry) []corev1alpha1.ObjectSetProbe {
 
 func c17Object(o c17Obj) *unstructured.Unstructured {
 	u := Obj(gvkWidget, NS, "probed")
-	u.SetLabels(map[string]string{"app": "x"})
+	if o.Lab != "none" {
+		u.SetLabels(map[string]string{"app": "x"})
+	}
 	switch o.Gen {
 	case "absent":
 	case "string":
@@ -125,7 +131,7 @@ func c17Entries() []c17Entry {
 	subsets := [][]string{{}, {"condA"}, {"condB"}, {"fields"}, {"cel"}, {"condA", "fields"}, {"condA", "condB"}, {"cel", "condA", "fields"}, {"celNonBool"}, {"celEmpty"}, {"celEmpty", "fields"}}
 	var out []c17Entry
 	for _, k := range []string{"none", "match", "mismatch"} {
-		for _, l := range []string{"none", "match", "mismatch"} {
+		for _, l := range []string{"none", "match", "mismatch", "notexists"} {
 			for _, s := range subsets {
 				out = append(out, c17Entry{k, l, s})
 			}
@@ -142,9 +148,10 @@ func c17Objects() []c17Obj {
 				for _, b := range []string{"absent", "True"} {
 					for _, f := range []string{"equal", "different", "missingB"} {
 						for _, x := range []int64{1, 0} {
-							out = append(out, c17Obj{og, sh, a, b, f, x, "int"})
+							out = append(out, c17Obj{og, sh, a, b, f, x, "int", "app"})
 							if f == "equal" && b == "absent" {
-								out = append(out, c17Obj{og, sh, a, b, f, x, "absent"}, c17Obj{og, sh, a, b, f, x, "string"})
+								out = append(out, c17Obj{og, sh, a, b, f, x, "absent", "app"}, c17Obj{og, sh, a, b, f, x, "string", "app"},
+									c17Obj{og, sh, a, b, f, x, "int", "none"})
 							}
 						}
 					}
